@@ -40,6 +40,7 @@ ReadBackCode(e) ==
 Step ==
     \/ Ev.op = "event" /\ DoEvent(Ev.d) /\ nev'[Ev.d] = Ev.s
     \/ Ev.op = "stream_datum" /\ DoStreamDatum(Ev.r, Ev.a, Ev.b)
+    \/ Ev.op = "redesc" /\ DoRedesc(Ev.d)
     \/ Ev.op = "stop" /\ DoStop
     \/ /\ Ev.op = "final" /\ phase = "closed"
        /\ obs' = [set |-> TRUE, rows |-> Ev.rows, arr |-> Ev.arr, meta |-> Ev.meta, nodes |-> Ev.nodes]
